@@ -6,7 +6,8 @@ against DC.Model.Layers.Django (set/add with tags, get, touch, delete, pop,
 has_key, incr, decr, read, clear, expire, cull, evict, stats,
 get_backend_timeout, make_key); the BaseCache composites (get_many, set_many,
 delete_many, get_or_set, incr_version) are executed for real and judged by the
-acceptor: a dictionary written from the Django cache contract (namespacing by
+acceptor: the Lean contract specification DC.DjSpec (theorem djrun_refines;
+the real results are compared with it directly) and a dictionary written from the Django cache contract (namespacing by
 prefix and version; None = forever, <= 0 = already expired, default otherwise;
 incr/decr on a missing or expired key raise ValueError)."""
 import layers
@@ -88,6 +89,17 @@ def exhaustive_small(n_ops):
             hists.append({'cls': 'django', 'cfg': {'mfs': 8, 'shards': 2, 'prefix': 'p', 'version': 1, 'deftimeout': deft},
                           'ops': ops, 'state_every': 0})
     return hists
+
+
+DJSPEC_OPS = {'set', 'add', 'get', 'touch', 'delete', 'pop', 'has_key', 'incr', 'clear'}
+
+
+def spec_dj_history(rng, length):
+    """a history of the ten calls the Django-level specification DC.DjSpec covers (theorem djrun_refines)"""
+    h = gen_history(rng, length * 2)
+    h['ops'] = [op for op in h['ops'] if op['m'] in DJSPEC_OPS][:length]
+    h['state_every'] = 0
+    return h
 
 
 def acceptor(hist, io):
@@ -258,6 +270,20 @@ def run(tier, seed, rng, known, replay):
     n = 300 if tier == 'quick' else 4000
     hists = exhaustive_small(2 if tier == 'quick' else 3) + [gen_history(rng, rng.choice([10, 30, 60])) for _ in range(n)]
     r = base.check_histories('C19', hists, ('result', 'state'), acceptor=acceptor, known=known, runner=layers.layer_chunk)
+    # the real DjangoCache against the Lean contract specification (specification side of djrun_refines)
+    n_spec = 150 if tier == 'quick' else 2500
+    shists = [spec_dj_history(rng, rng.choice([10, 30, 60])) for _ in range(n_spec)]
+    rs = base.check_histories('C19', shists, ('result', 'state'), acceptor=acceptor, known=known, runner=layers.layer_chunk)
+    compared, bad = base.against_lean_spec(rs['impl_out'], 'jsop', undetermined=('clear',))
+    r['violations'] = list(r['violations']) + list(rs['violations'])
+    for b in bad[:2]:
+        h = shists[b['history']]
+        what = 'call #%d %s returns %s, the Django contract specification DC.DjSpec returns %s' % (b['op_index'], b['line'][:100], b['impl'][:60], b['spec'][:60])
+        r['violations'].append({'replay': {'property': 'C19', 'kind': 'spec-disagreement', 'cls': 'django', 'cfg': h['cfg'],
+                                           'ops': base.tag(h['ops'][:b['op_index'] + 1]), 'line': b['line'], 'impl': b['impl'], 'spec': b['spec'],
+                                           'acceptor': what, 'spec_part': 'DC.DjSpec.step; refinement theorem DC.Django.djrun_refines'},
+                                'found_input': True, 'what': 'property violated on the implementation: ' + what})
+    spec_stats = {'spec_histories': n_spec, 'results_compared_with_lean_spec': compared, 'spec_disagreements': len(bad)}
     dist, distinct = base.op_distribution(hists, r['impl_out'])
     violations = list(r['violations'])
     v = composites(rng)
@@ -269,6 +295,6 @@ def run(tier, seed, rng, known, replay):
                 'KEY_PREFIX in {"","p","a:b"}, VERSION in {1,2}, SHARDS in {1,2,8}, clock steps 0/1/3/9; plus the BaseCache composites once; '
                 'distinct = distinct (method, result) pairs',
         'samples': [base.sample(hists[0], r['impl_out'][0])], 'traces': len(hists),
-        'dist': dict(dist, histories=len(hists), divergent=r['divergent']),
+        'dist': dict(dist, **spec_stats, histories=len(hists), divergent=r['divergent']),
         'violations': violations, 'known': r['known'],
     }
